@@ -16,6 +16,8 @@
 #include <sys/wait.h>
 #include <sys/sysmacros.h>
 #include <time.h>
+#include <dlfcn.h>
+#include <pthread.h>
 
 static const char* kind(mode_t m) {
   return S_ISREG(m) ? "reg" : S_ISSOCK(m) ? "sock" : S_ISFIFO(m) ? "fifo" : S_ISCHR(m) ? "chr" : S_ISDIR(m) ? "dir" : "other";
@@ -70,6 +72,34 @@ static int child_main(int argc, char** argv) {
 }
 
 static FILE *in, *out;
+/* fork interposed (static link: this definition wins inside libuv): scripted failure, else the real one */
+static int fork_fail_errno;
+pid_t fork(void) {
+  static pid_t (*real_fork)(void);
+  if (fork_fail_errno) { errno = fork_fail_errno; fork_fail_errno = 0; return -1; }
+  if (!real_fork) real_fork = (pid_t (*)(void)) dlsym(RTLD_NEXT, "fork");
+  return real_fork();
+}
+/* dirty heap: every block libuv allocates is filled with a chosen byte */
+static int fill_byte = 0xA5;
+static void* d_malloc(size_t n) { void* p = malloc(n); if (p) memset(p, fill_byte, n); return p; }
+static void* d_realloc(void* p, size_t n) { return realloc(p, n); }
+static void* d_calloc(size_t a, size_t b) { return calloc(a, b); }
+static void d_free(void* p) { free(p); }
+static int count_fds(void) { int n = 0, fd; for (fd = 0; fd < 1024; fd++) if (fcntl(fd, F_GETFD) != -1) n++; return n; }
+/* every uv_spawn of this harness: the calling thread's signal mask must come back unchanged */
+static int spawn_checked(uv_loop_t* l, uv_process_t* p, const uv_process_options_t* o) {
+  sigset_t m0, m1; int rc, i;
+  pthread_sigmask(SIG_SETMASK, NULL, &m0);
+  rc = uv_spawn(l, p, o);
+  pthread_sigmask(SIG_SETMASK, NULL, &m1);
+  for (i = 1; i < 65; i++) if (sigismember(&m0, i) != sigismember(&m1, i)) {
+    fprintf(out, "MASK-CHANGED sig %d now %s (uv_spawn returned %d)\n", i, sigismember(&m1, i) ? "blocked" : "unblocked", rc);
+    pthread_sigmask(SIG_SETMASK, &m0, NULL);   /* keep the rest of the run meaningful */
+    break;
+  }
+  return rc;
+}
 static uv_loop_t* loop;
 static char self[1024], tmpdir[900];
 #define MAXP 64
@@ -120,7 +150,7 @@ static void cat_report(const char* path) {
 static uv_pipe_t pipes[64];
 static void do_layout(char** w, int nw) {
   uv_process_options_t opt; uv_stdio_container_t* sc; char rp[1024]; char* args[6]; char* env[3]; char envb[256];
-  int fail = !strcmp(w[1], "fail"), det = atoi(w[2]), cnt = atoi(w[6]), i, rc, np = 0, uid = atoi(w[5]);
+  int fail = !strcmp(w[1], "fail"), ff = !strcmp(w[1], "forkfail"), det = atoi(w[2]), cnt = atoi(w[6]), i, rc, np = 0, uid = atoi(w[5]), fds0;
   if (nw != 7 + cnt) { fprintf(out, "bad-op\n"); return; }
   sc = calloc(cnt ? cnt : 1, sizeof *sc);
   for (i = 0; i < cnt; i++) {
@@ -148,8 +178,10 @@ static void do_layout(char** w, int nw) {
     args[0] = "/bin/sh"; args[1] = "-c"; args[2] = sc2; args[3] = NULL; opt.file = args[0];
   }
   dump_parent();
+  fds0 = count_fds();
+  if (ff) fork_fail_errno = EAGAIN;
   ncb = 0; nprocs = 1; cbcount[0] = 0;
-  rc = uv_spawn(loop, &procs[0], &opt);
+  rc = spawn_checked(loop, &procs[0], &opt);
   pids[0] = rc == 0 ? uv_process_get_pid(&procs[0]) : -1;
   fprintf(out, "spawn %s active=%d\n", rc == 0 ? "0" : uv_err_name(rc), uv_is_active((uv_handle_t*) &procs[0]));
   if (rc == 0) { run_until(1, 10000); abandon(1); }
@@ -157,6 +189,8 @@ static void do_layout(char** w, int nw) {
   for (i = 0; i < np; i++) if (!uv_is_closing((uv_handle_t*) &pipes[i])) uv_close((uv_handle_t*) &pipes[i], on_close);
   uv_run(loop, UV_RUN_DEFAULT);
   fprintf(out, "cbs %d\n", ncb);
+  fork_fail_errno = 0;
+  fprintf(out, "fds %d %d\n", fds0, count_fds());
   if (rc == 0) cat_report(rp);
   zombies();
   free(sc);
@@ -179,7 +213,7 @@ static void do_many(char** w, int nw) {
     args[0] = self; args[1] = "child"; args[2] = s[0] == 'e' ? "exit" : "sig"; args[3] = num; args[4] = d ? d + 1 : NULL; args[5] = NULL;
     opt.file = self; opt.args = args; opt.exit_cb = exit_cb;
     cbcount[i] = 0;
-    rc = uv_spawn(loop, &procs[i], &opt);
+    rc = spawn_checked(loop, &procs[i], &opt);
     pids[i] = rc == 0 ? uv_process_get_pid(&procs[i]) : -1;
     if (rc) fprintf(out, "spawn-error %d %s\n", i, uv_err_name(rc));
   }
@@ -197,7 +231,7 @@ static void do_kill(char** w) {
   uv_process_options_t opt; char* args[4] = { self, "child", "pause", NULL }; int rc, sig = atoi(w[2]), pid;
   memset(&opt, 0, sizeof opt); opt.file = self; opt.args = args; opt.exit_cb = exit_cb;
   ncb = 0; nprocs = 1; cbcount[0] = 0;
-  rc = uv_spawn(loop, &procs[0], &opt);
+  rc = spawn_checked(loop, &procs[0], &opt);
   if (rc) { fprintf(out, "spawn-error %s\nend\n", uv_err_name(rc)); return; }
   pid = pids[0] = uv_process_get_pid(&procs[0]);
   uv_run(loop, UV_RUN_NOWAIT);
@@ -229,7 +263,7 @@ static void do_echo(void) {
   sc[2].flags = UV_IGNORE;
   memset(&opt, 0, sizeof opt); opt.file = self; opt.args = args; opt.exit_cb = exit_cb; opt.stdio = sc; opt.stdio_count = 3;
   ncb = 0; nprocs = 1; ngot = 0; cbcount[0] = 0;
-  rc = uv_spawn(loop, &procs[0], &opt);
+  rc = spawn_checked(loop, &procs[0], &opt);
   if (rc) { fprintf(out, "spawn-error %s\nend\n", uv_err_name(rc)); return; }
   pids[0] = uv_process_get_pid(&procs[0]);
   b = uv_buf_init("ping\n", 5);
@@ -267,6 +301,7 @@ int main(int argc, char** argv) {
   in = fdopen(fcntl(0, F_DUPFD_CLOEXEC, 200), "r");
   out = fdopen(fcntl(1, F_DUPFD_CLOEXEC, 200), "w");
   setvbuf(out, NULL, _IOLBF, 0);
+  uv_replace_allocator(d_malloc, d_realloc, d_calloc, d_free);
   loop = uv_default_loop();
   while (fgets(line, sizeof line, in)) {
     char* w[128]; int nw = 0; char* p;
@@ -279,7 +314,8 @@ int main(int argc, char** argv) {
     else if (!strcmp(w[0], "place") && nw == 3) {     /* place <fd> <basefd>: dup a base file to a chosen free number */
       int fd = atoi(w[1]);
       if (fcntl(fd, F_GETFD) != -1 || dup3(atoi(w[2]), fd, O_CLOEXEC) != fd) fprintf(out, "bad-op\n"); else fprintf(out, "placed\n");
-    } else if (!strcmp(w[0], "unplace") && nw == 2) { close(atoi(w[1])); fprintf(out, "unplaced\n"); }
+    } else if (!strcmp(w[0], "fill") && nw == 2) { fill_byte = atoi(w[1]); fprintf(out, "filled\n"); }
+    else if (!strcmp(w[0], "unplace") && nw == 2) { close(atoi(w[1])); fprintf(out, "unplaced\n"); }
     else fprintf(out, "bad-op\n");
     fflush(out);
   }
